@@ -1431,7 +1431,6 @@ func (self *Analyzer) matchExpression(node pAst.MatchExpression) ast.AnalyzedMat
 		for _, lit := range arm.Literals {
 			if !lit.IsLiteral() {
 				defaultArmSpan = &arm.Range
-				action := self.expression(arm.Action)
 				defaultArm = &action
 				containsDefault = true
 			}
